@@ -23,13 +23,55 @@ fn to_builder(e: &Exp, vars: &IndexMap<String, Var>, r: &mut Rng) -> Expr {
         Exp::Max(es) => rooc::builder::max(es.iter().map(|x| go(x)).collect::<Vec<_>>()),
         Exp::And(es) => rooc::builder::all(es.iter().map(|x| go(x)).collect::<Vec<_>>()),
         Exp::Or(es) => rooc::builder::any(es.iter().map(|x| go(x)).collect::<Vec<_>>()),
-        Exp::Not(x) => !go(x),
-        Exp::Xor(a, b) => { let l = go(a); let rr = go(b); l ^ rr }
-        Exp::Implies(a, b) => { let l = go(a); let rr = go(b); l.implies(rr) }
-        Exp::Iff(a, b) => { let l = go(a); let rr = go(b); l.iff(rr) }
+        // every receiver form of the public API: a bare `Var` handle as well as an `Expr`
+        Exp::Not(x) | Exp::UnOp(UnOp::Not, x) => { if let Exp::Variable(n) = &**x { if r.chance(2, 3) { return !vars[n]; } } !to_builder(x, vars, r) }
+        Exp::Xor(a, b) => logic2(LogicOp::Xor, a, b, vars, r),
+        Exp::Implies(a, b) => logic2(LogicOp::Implies, a, b, vars, r),
+        Exp::Iff(a, b) => logic2(LogicOp::Iff, a, b, vars, r),
         Exp::BinOp(..) => unreachable!(),
-        Exp::UnOp(UnOp::Neg, x) => -go(x),
-        Exp::UnOp(UnOp::Not, x) => !go(x),
+        Exp::UnOp(UnOp::Neg, x) => { if let Exp::Variable(n) = &**x { if r.chance(2, 3) { return -vars[n]; } } -to_builder(x, vars, r) }
+    }
+}
+
+#[derive(Clone, Copy, PartialEq)]
+enum LogicOp { And, Or, Xor, Implies, Iff }
+
+/// a binary logic connective through EVERY overload / method of the public API: the receiver is a bare `Var` handle or an
+/// `Expr`; the other operand a `Var`, an `Expr`, for `&`/`|` also a `bool` literal, for `.implies()`/`.iff()` also `f64`/`i32`
+fn logic2(op: LogicOp, a: &Exp, b: &Exp, vars: &IndexMap<String, Var>, r: &mut Rng) -> Expr {
+    #[derive(Clone)]
+    enum O { V(Var), E(Expr), B(bool), F(f64), I(i32) }
+    let mut classify = |x: &Exp, r: &mut Rng, lit_ok: bool| -> O {
+        match x {
+            Exp::Variable(n) if r.chance(3, 4) => O::V(vars[n]),
+            Exp::Number(v) if lit_ok && (op == LogicOp::And || op == LogicOp::Or) && (*v == 0.0 && !v.is_sign_negative() || *v == 1.0) && r.chance(2, 3) => O::B(*v == 1.0),
+            Exp::Number(v) if lit_ok && (op == LogicOp::Implies || op == LogicOp::Iff) && r.chance(1, 2) =>
+                if v.fract() == 0.0 && v.abs() < 1e6 && !(*v == 0.0 && v.is_sign_negative()) && r.chance(1, 2) { O::I(*v as i32) } else { O::F(*v) },
+            other => O::E(to_builder(other, vars, r)),
+        }
+    };
+    let l = classify(a, r, op == LogicOp::And || op == LogicOp::Or);
+    let rr = classify(b, r, true);
+    let ex = |o: O| match o { O::V(v) => Expr::from(v), O::E(e) => e, O::B(b) => Expr::from(if b { 1.0 } else { 0.0 }), O::F(x) => Expr::from(x), O::I(x) => Expr::from(x) };
+    match op {
+        LogicOp::And => match (l.clone(), rr.clone()) {
+            (O::V(x), O::V(y)) => x & y, (O::V(x), O::E(y)) => x & y, (O::E(x), O::V(y)) => x & y, (O::E(x), O::E(y)) => x & y,
+            (O::V(x), O::B(y)) => x & y, (O::E(x), O::B(y)) => x & y, (O::B(x), O::V(y)) => x & y, (O::B(x), O::E(y)) => x & y,
+            _ => ex(l) & ex(rr) },
+        LogicOp::Or => match (l.clone(), rr.clone()) {
+            (O::V(x), O::V(y)) => x | y, (O::V(x), O::E(y)) => x | y, (O::E(x), O::V(y)) => x | y, (O::E(x), O::E(y)) => x | y,
+            (O::V(x), O::B(y)) => x | y, (O::E(x), O::B(y)) => x | y, (O::B(x), O::V(y)) => x | y, (O::B(x), O::E(y)) => x | y,
+            _ => ex(l) | ex(rr) },
+        LogicOp::Xor => match (l.clone(), rr.clone()) {
+            (O::V(x), O::V(y)) => x ^ y, (O::V(x), O::E(y)) => x ^ y, (O::E(x), O::V(y)) => x ^ y, _ => ex(l) ^ ex(rr) },
+        LogicOp::Implies => match (l.clone(), rr.clone()) {
+            (O::V(x), O::V(y)) => x.implies(y), (O::V(x), O::E(y)) => x.implies(y), (O::V(x), O::F(y)) => x.implies(y), (O::V(x), O::I(y)) => x.implies(y),
+            (O::E(x), O::V(y)) => x.implies(y), (O::E(x), O::F(y)) => x.implies(y), (O::E(x), O::I(y)) => x.implies(y),
+            _ => ex(l).implies(ex(rr)) },
+        LogicOp::Iff => match (l.clone(), rr.clone()) {
+            (O::V(x), O::V(y)) => x.iff(y), (O::V(x), O::E(y)) => x.iff(y), (O::V(x), O::F(y)) => x.iff(y), (O::V(x), O::I(y)) => x.iff(y),
+            (O::E(x), O::V(y)) => x.iff(y), (O::E(x), O::F(y)) => x.iff(y), (O::E(x), O::I(y)) => x.iff(y),
+            _ => ex(l).iff(ex(rr)) },
     }
 }
 
@@ -75,8 +117,8 @@ fn to_builder_bin(e: &Exp, vars: &IndexMap<String, Var>, r: &mut Rng) -> Expr {
             match op {
                 BinOp::Add => arith!(+), BinOp::Sub => arith!(-), BinOp::Mul => arith!(*), BinOp::Div => arith!(/),
                 // the operators build the structural n-ary / binary logic forms
-                BinOp::And => ex(l) & ex(rr), BinOp::Or => ex(l) | ex(rr), BinOp::Xor => ex(l) ^ ex(rr),
-                BinOp::Implies => ex(l).implies(ex(rr)), BinOp::Iff => ex(l).iff(ex(rr)),
+                BinOp::And => logic2(LogicOp::And, a, b, vars, r), BinOp::Or => logic2(LogicOp::Or, a, b, vars, r), BinOp::Xor => logic2(LogicOp::Xor, a, b, vars, r),
+                BinOp::Implies => logic2(LogicOp::Implies, a, b, vars, r), BinOp::Iff => logic2(LogicOp::Iff, a, b, vars, r),
             }
         }
 
@@ -151,6 +193,7 @@ pub fn generate(seed: u64, n: usize, _thorough: bool, _corpus: Option<&str>) -> 
         if i % 2 == 1 { out.push(continuous_doors(&mut r)); }
         out.extend(history_cases(&mut r));
         out.push(pipe_case(&mut r));
+        if i % 2 == 0 { out.push(data_doors(&mut r)); }
     }
     out
 }
@@ -160,7 +203,7 @@ pub fn generate(seed: u64, n: usize, _thorough: bool, _corpus: Option<&str>) -> 
 fn eval_probe(r: &mut Rng) -> Option<Case> {
     let names: Vec<String> = ["p", "q", "s"].iter().map(|x| x.to_string()).collect();
     let ds: Vec<VarDecl> = names.iter().map(|n| VarDecl { name: n.clone(), ty: VariableType::IntegerRange(-4, 4) }).collect();
-    let vals: Vec<f64> = (0..3).map(|_| r.range(-4, 4) as f64).collect();
+    let vals: Vec<f64> = if r.chance(1, 2) { (0..3).map(|_| *r.pick(&[0.0, 1.0, 0.0, 1.0, 2.0, -1.0])).collect() } else { (0..3).map(|_| r.range(-4, 4) as f64).collect() };
     let mut b = ModelBuilder::new();
     let mut handles = IndexMap::new();
     for d in &ds { handles.insert(d.name.clone(), b.add_var(d.name.clone(), d.ty)); }
@@ -171,7 +214,18 @@ fn eval_probe(r: &mut Rng) -> Option<Case> {
     let sol = b.solve_with(Auto).ok()?;
     let cfg = ModelCfg { max_vars: 3, depth: 3, logic: true, piecewise: true, unbounded: false, fractional: true, strict_cmp: false, hostile: false };
     // numeric and logic operators over ALL variables (truthiness of non-0/1 values included: eval_expr is total)
-    let e = if r.chance(1, 2) { gen_model::num_exp(r, &ds, &cfg, 3) } else { crate::gen_exp::exp(r, &crate::gen_exp::ExpCfg { vars: names.clone(), logic: true, minmax: true, special: false }, 3) };
+    let connective = r.chance(1, 3);
+    let e = if connective {
+        // one connective applied to variable handles directly (the METHOD / operator forms with a bare `Var` receiver), possibly
+        // under one more operator; the values below include the rows of the truth table where the connectives differ
+        let v = |r: &mut Rng| Box::new(Exp::Variable(r.pick(&names).clone()));
+        let inner = match r.below(9) {
+            0 => Exp::Iff(v(r), v(r)), 1 => Exp::Implies(v(r), v(r)), 2 => Exp::Xor(v(r), v(r)),
+            3 => Exp::BinOp(BinOp::And, v(r), v(r)), 4 => Exp::BinOp(BinOp::Or, v(r), v(r)), 5 => Exp::Not(v(r)), 6 => Exp::UnOp(UnOp::Neg, v(r)),
+            7 => Exp::BinOp(BinOp::Iff, v(r), v(r)), _ => Exp::BinOp(BinOp::Implies, v(r), v(r)),
+        };
+        match r.below(4) { 0 => Exp::Not(Box::new(inner)), 1 => Exp::BinOp(BinOp::Add, Box::new(inner), v(r)), 2 => Exp::Iff(Box::new(inner), v(r)), _ => inner }
+    } else if r.chance(1, 2) { gen_model::num_exp(r, &ds, &cfg, 3) } else { crate::gen_exp::exp(r, &crate::gen_exp::ExpCfg { vars: names.clone(), logic: true, minmax: true, special: false }, 3) };
     let be = to_builder(&e, &handles, r);
     let mut c = Case::default();
     c.req = format!("eval-expr {} (vals {})", sx::exp(&builder_shape(&index_exp(&e, &names))), sx::nums(&vals));
@@ -179,6 +233,7 @@ fn eval_probe(r: &mut Rng) -> Option<Case> {
     c.oracle = format!("eval-check {} (vals {}) {}", sx::exp(&builder_shape(&index_exp(&e, &names))), sx::nums(&vals), sx::num(sol.eval(&be)));
     c.show = format!("solution.eval({}) at {:?}", e, vals);
     c.tags = vec!["eval-probe".into()];
+    if connective { c.tags.push("eval-probe-connective".into()); }
     c.nontrivial = true;
     Some(c)
 }
@@ -488,7 +543,19 @@ fn hist_type(r: &mut Rng, discrete: bool) -> VariableType {
     }
 }
 
-struct Hist { b: ModelBuilder, minted: Vec<Var>, ops: Vec<String>, outs: Vec<String>, tags: Vec<String>, cnames: Vec<String>, linear: bool }
+struct Hist { b: ModelBuilder, minted: Vec<Var>, ops: Vec<String>, outs: Vec<String>, tags: Vec<String>, cnames: Vec<String>, linear: bool, div_by_var: bool, abs_cons: Vec<(String, Comparison, Exp, Exp)>, abs_obj: Option<(OptimizationType, Exp)> }
+
+fn has_var(e: &Exp) -> bool { let mut m = IndexMap::new(); gen_model::count_vars(e, &mut m); !m.is_empty() }
+/// a division whose divisor mentions a variable (the linearizer's error-vs-pruning order on such models is C01's matter)
+fn div_by_var(e: &Exp) -> bool {
+    match e {
+        Exp::Number(_) | Exp::Variable(_) => false,
+        Exp::Abs(x) | Exp::Not(x) | Exp::UnOp(_, x) => div_by_var(x),
+        Exp::Min(es) | Exp::Max(es) | Exp::And(es) | Exp::Or(es) => es.iter().any(div_by_var),
+        Exp::BinOp(BinOp::Div, a, b) => has_var(b) || div_by_var(a) || div_by_var(b),
+        Exp::Xor(a, b) | Exp::Implies(a, b) | Exp::Iff(a, b) | Exp::BinOp(_, a, b) => div_by_var(a) || div_by_var(b),
+    }
+}
 
 impl Hist {
     fn tag(&mut self, t: &str) { if !self.tags.iter().any(|x| x == t) { self.tags.push(t.to_string()); } }
@@ -529,12 +596,22 @@ impl Hist {
         let name = if r.chance(1, 3) { String::new() } else { r.pick(&["c", "d", "cap", "c"]).to_string() + &r.below(3).to_string() };
         self.cnames.push(name.clone());
         let cmps = [Comparison::LessOrEqual, Comparison::GreaterOrEqual, Comparison::Equal, Comparison::Less, Comparison::Greater];
-        let (l, bl) = self.expr(r, 2);
+        let (mut l, mut bl) = self.expr(r, 2);
+        if self.linear && self.minted.len() >= 1 && r.chance(1, 8) {
+            // the one non-linear construct of a linear history: a product of two variables (`NonLinearExpression`)
+            let a = *r.pick(&self.minted); let b2 = *r.pick(&self.minted);
+            l = Exp::BinOp(BinOp::Mul, Box::new(Exp::Variable(a.index.to_string())), Box::new(Exp::Variable(b2.index.to_string())));
+            bl = a * b2;
+            self.tag("product-of-variables");
+        }
+        if div_by_var(&l) { self.div_by_var = true; }
         match r.below(if self.linear { 6 } else { 10 }) {
             0..=5 => {
                 let cmp = if self.linear { cmps[r.below(3)] } else { *r.pick(&cmps) };
                 let (rr, br) = if self.linear { let k = r.range(0, 6) as f64; (Exp::Number(k), Expr::from(k)) } else { self.expr(r, 1) };
+                if div_by_var(&rr) { self.div_by_var = true; }
                 self.tag("bc-new");
+                self.abs_cons.push((name.clone(), cmp, l.clone(), rr.clone()));
                 (sx_bc(&name, cmp, &l, &rr, false), BuilderConstraint::new(bl, cmp, br, name))
             }
             6 | 7 => {
@@ -545,6 +622,7 @@ impl Hist {
                 // the fields are public: an assertion flag next to an arbitrary comparison / right-hand side
                 let cmp = *r.pick(&cmps);
                 let (rr, br) = self.expr(r, 1);
+                if div_by_var(&rr) { self.div_by_var = true; }
                 let a = r.chance(2, 3);
                 self.tag(if a { "bc-raw-assert" } else { "bc-raw" });
                 (sx_bc(&name, cmp, &l, &rr, a), BuilderConstraint { name, lhs: bl, constraint_type: cmp, rhs: br, is_logic_assertion: a })
@@ -606,9 +684,11 @@ impl Hist {
                     self.tag(if picks.is_empty() { "sum-empty" } else { "sum" });
                     (e, be)
                 } else { self.expr(r, 2) };
+                if div_by_var(&e) { self.div_by_var = true; }
                 let max = r.chance(1, 2);
                 self.ops.push(format!("({} {})", if max { "maximize" } else { "minimize" }, sx::exp(&e)));
                 self.outs.push("(unit)".into());
+                self.abs_obj = Some((if max { OptimizationType::Max } else { OptimizationType::Min }, e.clone()));
                 let b = std::mem::take(&mut self.b);
                 self.b = if max { b.maximize(be) } else { b.minimize(be) };
                 self.tag(if max { "maximize" } else { "minimize" });
@@ -617,6 +697,7 @@ impl Hist {
                 self.ops.push("(satisfy)".into());
                 self.outs.push("(unit)".into());
                 self.b = std::mem::take(&mut self.b).satisfy();
+                self.abs_obj = Some((OptimizationType::Satisfy, Exp::Number(0.0)));
                 self.tag("satisfy");
             }
         }
@@ -635,7 +716,7 @@ fn random_milp(r: &mut Rng) -> MILPValue {
 
 fn history_cases(r: &mut Rng) -> Vec<Case> {
     let linear = r.chance(2, 5);
-    let mut h = Hist { b: ModelBuilder::new(), minted: vec![], ops: vec![], outs: vec![], tags: vec!["history".into()], cnames: vec![], linear };
+    let mut h = Hist { b: ModelBuilder::new(), minted: vec![], ops: vec![], outs: vec![], tags: vec!["history".into()], cnames: vec![], linear, div_by_var: false, abs_cons: vec![], abs_obj: None };
     if linear { h.tag("linear-history"); }
     let span = if r.chance(1, 6) { 24 } else { 9 };
     let n = 2 + r.below(span);
@@ -682,20 +763,97 @@ fn history_cases(r: &mut Rng) -> Vec<Case> {
     c.tags = h.tags.clone();
     c.nontrivial = true;
     c.show = show.clone();
+    let section = if h.linear { "solution" } else { "readback" };
     match solved {
+        // arbitrary expression trees (several hostile constructs at once): which error the linearizer reports first is C01's
+        // matter; the `solve_with` glue (linearize first, its error wins) is diffed on the linear histories, where the only
+        // non-linear construct is an injected product of variables
+        Ok(Err(_)) if !h.linear => { c.tags.push("not-linearizable-undiffed".into()); c.req = head_req.clone(); c.imp = format!("(ok {})", head_imp); }
+        Ok(_) if h.div_by_var => {
+            // a division by an expression with variables: whether the linearizer reports `NonLinearExpression` or prunes the row
+            // first is the business of C01's model; the `solve_with` glue is not diffed on such a history
+            c.tags.push("solve-diff-skipped-div-by-variable".into());
+            c.req = head_req.clone(); c.imp = format!("(ok {})", head_imp);
+        }
         Ok(Ok(sol)) => {
             c.tags.push("readback-canned".into());
             if q_handles.iter().any(|i| sol.var_value(Var { index: *i }).is_none()) { c.tags.push("var-value-none".into()); }
-            c.req = format!("{} (solution {} {})", head_req, sx_sol(&canned), queries);
+            c.req = format!("{} ({} {} {})", head_req, section, sx_sol(&canned), queries);
             c.imp = format!("(ok {} {})", head_imp, readback(&sol));
+            // the first evaluated expression is also judged against the language semantics at the values the handles resolve to
+            let top = h.minted.len() + 4;
+            let vals: Vec<f64> = (0..top).map(|i| sol.numeric_value(Var { index: i }).unwrap_or(0.0)).collect();
+            // (literals far from 1 make the float evaluation overflow / cancel where the exact semantics does not: no verdict there)
+            fn tame(e: &Exp) -> bool { match e {
+                Exp::Number(v) => *v == 0.0 || (v.abs() >= 1e-3 && v.abs() <= 1e3), Exp::Variable(_) => true,
+                Exp::Abs(x) | Exp::Not(x) | Exp::UnOp(_, x) => tame(x),
+                Exp::Min(es) | Exp::Max(es) | Exp::And(es) | Exp::Or(es) => es.iter().all(tame),
+                Exp::Xor(a, b) | Exp::Implies(a, b) | Exp::Iff(a, b) | Exp::BinOp(_, a, b) => tame(a) && tame(b) } }
+            if vals.iter().all(|v| v.is_finite()) && tame(&q_exprs[0].0) && sol.eval(&q_exprs[0].1).is_finite() {
+                c.oracle = format!("eval-check {} (vals {}) {}", sx::exp(&q_exprs[0].0), sx::nums(&vals), sx::num(sol.eval(&q_exprs[0].1)));
+            }
         }
-        Ok(Err(_)) => { c.tags.push("not-linearizable".into()); c.req = head_req.clone(); c.imp = format!("(ok {})", head_imp); }
+        Ok(Err(BuilderError::Linearization(e))) => {
+            // `linearize()?` comes first: its error is what `solve_with` returns, whatever the solver would say
+            c.tags.push("not-linearizable".into());
+            c.req = format!("{} (solution {} {})", head_req, sx_sol(&canned), queries);
+            c.imp = format!("(ok {} (linearization {}))", head_imp, crate::props::c01::lin_error(&e));
+        }
+        Ok(Err(BuilderError::Solver(_))) => { c.req = head_req.clone(); c.imp = format!("(ok {})", head_imp); c.impl_violation = Some("the canned solver cannot fail".into()); }
         Err(_) => {
-            c.req = head_req.clone(); c.imp = format!("(ok {})", head_imp);
+            c.tags.push("solve-panic".into());
+            c.req = format!("{} (solution {} {})", head_req, sx_sol(&canned), queries);
+            c.imp = format!("(ok {} (solve-panic))", head_imp);
             if model.is_ok() { c.impl_violation = Some("solve_with panicked although into_model succeeded".into()); }
         }
     }
     cases.push(c);
+    // (1b) builder ~ text: the calls of a linear history, written down as a program in the documented order (constraints in
+    // call order, `with_all` appending its list, the last objective), must compile to the model `into_model` yields (usage
+    // counts aside) and, solved through the text door, give every NAMED constraint the activity the builder reads back
+    if linear && !h.tags.iter().any(|t| t == "product-of-variables") {
+        if let Ok(bm) = &model {
+            let names: Vec<String> = bm.domain().keys().cloned().collect();
+            let rename = |e: &Exp| -> Exp { fn go(e: &Exp, names: &[String]) -> Exp { match e {
+                Exp::Number(_) => e.clone(), Exp::Variable(i) => Exp::Variable(names[i.parse::<usize>().unwrap()].clone()),
+                Exp::BinOp(op, a, b) => Exp::BinOp(*op, Box::new(go(a, names)), Box::new(go(b, names))), other => other.clone() } } go(e, &names) };
+            let ds: Vec<VarDecl> = bm.domain().iter().map(|(n, d)| VarDecl { name: n.clone(), ty: *d.get_type() }).collect();
+            let cons: Vec<rooc::model_transformer::Constraint> = h.abs_cons.iter().map(|(n, cmp, l, rr)| rooc::model_transformer::Constraint::new(rename(l), *cmp, rename(rr), n.clone())).collect();
+            let (ot, oe) = h.abs_obj.clone().unwrap_or((OptimizationType::Satisfy, Exp::Number(0.0)));
+            let tm_abs = gen_model::build(ot.clone(), rename(&oe), cons, &ds);
+            let mut pr = r.fork();
+            let text = Printer { r: &mut pr, sp: Spelling { aliases: false, implicit_mul: false, redundant_parens: false, named_consts: false }, consts: vec![] }.program(&tm_abs);
+            if let Ok(tm) = RoocParser::new(text.clone()).parse_and_transform(vec![], &IndexMap::new()) {
+                let body = |m: &Model| format!("{} {}", m.constraints().iter().map(sx::constraint).collect::<Vec<_>>().join(" "), strip_usage(&sx::domain(m.domain())));
+                let mut c = Case::default();
+                c.tags = vec!["history".into(), "history-text-twin".into()];
+                c.nontrivial = true;
+                c.show = format!("{} ~ text: {}", show, text.replace('\n', " ; "));
+                c.imp = "(twin)".into();
+                let obj_same = matches!(ot, OptimizationType::Satisfy) || sx::exp(&tm.objective().rhs) == sx::exp(&bm.objective().rhs);
+                if body(&tm) != body(bm) || !obj_same || sx::opt_type(&tm.objective().objective_type) != sx::opt_type(&bm.objective().objective_type) {
+                    c.impl_violation = Some(format!("the model of the builder calls differs from the model of the same program as text: builder {} vs text {}", sx::model(bm), sx::model(&tm)));
+                } else if tm.domain().values().all(|d| !d.is_used()) {
+                    // no used variable in the text: `auto_solver` decides the constant rows on the spot and reports no row
+                    // activities, while the builder (every declaration marked) goes through the MILP path - not compared
+                    c.tags.push("history-text-twin-variable-free".into());
+                } else if let (Ok(Ok(bsol)), Ok(tsolver)) = (std::panic::catch_unwind(std::panic::AssertUnwindSafe(|| h.b.clone().solve_with(Auto))), RoocSolver::try_new(text.clone())) {
+                    if let Ok(tsol) = tsolver.solve_using(rooc::auto_solver) {
+                        c.tags.push("history-text-twin-solved".into());
+                        for n in h.cnames.iter().filter(|n| !n.is_empty()) {
+                            let a = bsol.constraint_value(n); let b2 = tsol.constraints().get(n).copied();
+                            let same = match (a, b2) { (Some(x), Some(y)) => (x - y).abs() <= 1e-6 * x.abs().max(1.0), (None, None) => true, _ => false };
+                            if !same { c.impl_violation = Some(format!("constraint_value({:?}) differs between the builder ({:?}) and the text door ({:?})", n, a, b2)); }
+                        }
+                        if (bsol.value() - tsol.value()).abs() > 1e-6 * tsol.value().abs().max(1.0) && !matches!(ot, OptimizationType::Satisfy) {
+                            c.impl_violation = Some(format!("optimal value differs between the builder ({}) and the text door ({})", bsol.value(), tsol.value()));
+                        }
+                    }
+                }
+                cases.push(c);
+            }
+        }
+    }
     // (2) the real default solver on a linear history: its own solution through the same read-backs
     if linear && model.is_ok() {
         if let Ok(Ok(real)) = std::panic::catch_unwind(std::panic::AssertUnwindSafe(|| h.b.clone().solve_with(Auto))) {
@@ -742,7 +900,13 @@ fn pipe_case(r: &mut Rng) -> Case {
     let n = r.below(8);
     let mut seq: Vec<&str> = vec![];
     // one run in four: the whole step-by-step simplex preset
-    if r.chance(1, 4) { seq = vec!["CompilerPipe", "PreModelPipe", "ModelPipe", "LinearModelPipe", "StandardLinearModelPipe", "TableauPipe", "StepByStepSimplexPipe"]; }
+    if r.chance(1, 2) {
+        seq = vec!["CompilerPipe", "PreModelPipe", "ModelPipe", "LinearModelPipe"];
+        match r.below(5) {
+            0 | 1 => seq.extend(["StandardLinearModelPipe", "TableauPipe", "StepByStepSimplexPipe"]),
+            2 => seq.push("RealSolver"), 3 => seq.push("MILPSolverPipe"), _ => seq.push("AutoSolverPipe"),
+        }
+    }
     for _ in 0..(if seq.is_empty() { n } else { r.below(2) }) {
         let ok = next_ok(seq.last().copied().unwrap_or(""));
         if !ok.is_empty() && r.chance(5, 6) { seq.push(*r.pick(&ok)); } else { seq.push(*r.pick(&names)); }
@@ -757,6 +921,10 @@ fn pipe_case(r: &mut Rng) -> Case {
         "max x\ns.t.\n    c: x >= 1\ndefine\n    x as NonNegativeReal",
         "min x\ns.t.\n    c: x >= 2\n    d: x <= 1\ndefine\n    x as NonNegativeReal",
         "min x\ns.t.\n    c: x < 2\ndefine\n    x as NonNegativeReal",
+        "max x + y\ns.t.\n    c: x + y <= 1\n    d: x + y >= 3\ndefine\n    x as NonNegativeReal\n    y as NonNegativeReal",
+        "min y\ns.t.\n    c: y = 2\n    d: y = 5\ndefine\n    y as NonNegativeReal",
+        "max x + y\ns.t.\n    c: x - y <= 1\ndefine\n    x as NonNegativeReal\n    y as NonNegativeReal",
+        "min x\ns.t.\n    c: x > 1\ndefine\n    x as NonNegativeReal",
         "min x + y\ns.t.\n    c: x + y >= 1\ndefine\n    x as Boolean\n    y as NonNegativeReal",
     ];
     let ti = r.below(texts.len());
@@ -792,5 +960,98 @@ fn pipe_case(r: &mut Rng) -> Case {
         }
     }
     c.req = format!("run-pipe (pipes{}{}) String {}", if seq.is_empty() { "" } else { " " }, seq.join(" "), fail);
+    c
+}
+
+// ======================================================================================================
+// the DATA-CARRYING doors: constants supplied through the API (`RoocParser::parse_and_transform(constants, ..)`,
+// `RoocSolver::solve_with_data_using(.., constants, ..)`, `PipeContext::new(constants, ..)`) with `where` constants of
+// the text that DEPEND on them, against the same program with every constant written in the text.
+
+fn data_doors(r: &mut Rng) -> Case {
+    use rooc::{Constant, Primitive};
+    // API constants: a number, an integer, sometimes a second number
+    let cap = r.range(1, 6);
+    let step = r.range(1, 3);
+    let k = r.range(0, 3);
+    // (an `IntegerRange` bound must be of integer kind: `cap` is then supplied as `Primitive::Integer`, as the literal `4` of the
+    // inlined text is; a `Number` there is rejected by the type-checking doors only - C19's matter, not a door disagreement)
+    let cap_in_domain = r.chance(1, 2);
+    let api: Vec<(&str, Primitive, String)> = vec![
+        ("cap", if !cap_in_domain && r.chance(1, 2) { Primitive::Number(cap as f64) } else { Primitive::Integer(cap) }, cap.to_string()),
+        ("step", Primitive::Number(step as f64), step.to_string()),
+    ];
+    // `where` constants of the text that refer to the API ones (and to each other)
+    let derived = match r.below(4) {
+        0 => format!("    let total = cap * 2 - {}\n", k),
+        1 => format!("    let total = cap + step\n"),
+        2 => format!("    let half = cap - {}\n    let total = half + step * 2\n", k.min(cap)),
+        _ => format!("    let total = cap * step + {}\n", k),
+    };
+    // where the constants are used: a right-hand side, a coefficient, a domain bound
+    let dom_hi = if cap_in_domain { "cap + 4".to_string() } else { "10".to_string() };
+    let obj = match r.below(3) { 0 => "max x + 2 * y", 1 => "max step * x + y", _ => "min x - y" };
+    let body = format!("{}\ns.t.\n    c: x + y <= total\n    d: y <= cap\n", obj);
+    let decl = format!("define\n    x as IntegerRange(0, {})\n    y as IntegerRange(0, 10)", dom_hi);
+    let text_api = format!("{}where\n{}{}", body, derived, decl);
+    let inlined: String = api.iter().map(|(n, _, v)| format!("    let {} = {}\n", n, v)).collect();
+    let text_inline = format!("{}where\n{}{}{}", body, inlined, derived, decl);
+    let consts = || -> Vec<Constant> { api.iter().map(|(n, p, _)| Constant::from_primitive(n, p.clone())).collect() };
+    let fns = IndexMap::new();
+    let milp_out = |res: Result<rooc::LpSolution<MILPValue>, String>| -> String { match res { Ok(s) => format!("(solution {})", sx::num(s.value())), Err(e) => e } };
+    let guard = |f: &mut dyn FnMut() -> String| -> String { std::panic::catch_unwind(std::panic::AssertUnwindSafe(|| f())).unwrap_or("(panic)".to_string()) };
+    let short = |s: String| -> String { sx::q(&s.replace("SpannedError { spanned_error: ", "").chars().take(110).collect::<String>()) };
+    // door A: parse_and_transform with the constants, then the compiler and the default solver
+    let mut model_a: Option<Model> = None;
+    let o_direct = guard(&mut || match RoocParser::new(text_api.clone()).parse_and_transform(consts(), &fns) {
+        Err(e) => format!("(compile-error {})", short(e)),
+        Ok(m) => { model_a = Some(m.clone()); match Linearizer::linearize(m) { Err(e) => format!("(compile-error linearize {})", crate::props::c01::lin_error(&e)), Ok(lm) => milp_out(rooc::auto_solver(&lm).map_err(|e| solver_error(&e))) } }
+    });
+    // door B: the one-shot solver with data
+    let o_solver = guard(&mut || match RoocSolver::try_new(text_api.clone()) {
+        Err(e) => format!("(compile-error parse {})", short(format!("{:?}", e))),
+        Ok(s) => match s.solve_with_data_using(rooc::auto_solver, consts(), &fns) {
+            Ok(sol) => format!("(solution {})", sx::num(sol.value())),
+            Err(RoocSolverError::Transform(e)) => format!("(compile-error transform {})", short(format!("{:?}", e))),
+            Err(RoocSolverError::Linearization(e)) => format!("(compile-error linearize {})", crate::props::c01::lin_error(&e)),
+            Err(RoocSolverError::Solver(e)) => solver_error(&e),
+        },
+    });
+    // door C: the staged runner with a context that carries the constants
+    let o_pipe = guard(&mut || {
+        let runner = PipeRunner::new(vec![Box::new(CompilerPipe::new()), Box::new(PreModelPipe::new()), Box::new(ModelPipe::new()), Box::new(LinearModelPipe::new()), Box::new(AutoSolverPipe::new())]);
+        match runner.run(PipeableData::String(text_api.clone()), &PipeContext::new(consts(), &fns)) {
+            Ok(mut res) => match res.pop() { Some(PipeableData::MILPSolution(sol)) => format!("(solution {})", sx::num(sol.value())), _ => "(pipe-no-solution)".into() },
+            Err((rooc::pipe::PipeError::SolverError(se), _)) => solver_error(&se),
+            Err((rooc::pipe::PipeError::TransformError { error, .. }, _)) => format!("(compile-error transform {})", short(format!("{:?}", error))),
+            Err((e, _)) => format!("(pipe-error {})", short(format!("{:?}", e))),
+        }
+    });
+    // door D: the same program with the constants written in the text
+    let mut model_d: Option<Model> = None;
+    let o_inline = guard(&mut || match RoocParser::new(text_inline.clone()).parse_and_transform(vec![], &fns) {
+        Err(e) => format!("(compile-error {})", short(e)),
+        Ok(m) => { model_d = Some(m.clone()); match Linearizer::linearize(m) { Err(e) => format!("(compile-error linearize {})", crate::props::c01::lin_error(&e)), Ok(lm) => milp_out(rooc::auto_solver(&lm).map_err(|e| solver_error(&e))) } }
+    });
+    let mut c = Case::default();
+    c.show = format!("API constants cap={:?} step={:?} ; {}", api[0].1, api[1].1, text_api.replace('\n', " ; "));
+    c.imp = format!("(data-doors (direct {}) (roocsolver {}) (pipe {}) (inlined {}))", o_direct, o_solver, o_pipe, o_inline);
+    c.tags = vec!["data-doors".into(), outcome_class(&o_inline)];
+    c.nontrivial = o_inline.starts_with("(solution") || o_inline == "(infeasible)";
+    let all = [&o_direct, &o_solver, &o_pipe, &o_inline];
+    let cls: Vec<String> = all.iter().map(|o| outcome_class(o)).collect();
+    if all.iter().any(|o| o.as_str() == "(panic)") { c.impl_violation = Some(format!("a data-carrying front door panicked: {}", c.imp)); }
+    else if cls.iter().any(|x| *x != cls[3]) { c.impl_violation = Some(format!("data-carrying front doors disagree with the inlined program on the verdict: {}", c.imp)); }
+    else if let Some(v) = outcome_value(&o_inline) {
+        if all.iter().any(|o| outcome_value(o).map(|w| (w - v).abs() > 1e-6 * v.abs().max(1.0)).unwrap_or(true)) { c.impl_violation = Some(format!("data-carrying front doors disagree on the optimal value: {}", c.imp)); }
+    }
+    if c.impl_violation.is_none() {
+        if let (Some(a), Some(d)) = (&model_a, &model_d) {
+            if sx::model(a) != sx::model(d) { c.impl_violation = Some(format!("constants through the API and in the text compile to different models: {} vs {}", sx::model(a), sx::model(d))); }
+            // the answer is also judged by the reference interpreter
+            c.oracle = format!("ref {} {}", sx::model(d), if o_inline.starts_with("(solution") { String::new() } else { o_inline.clone() });
+            if o_inline.starts_with("(solution") { c.oracle = String::new(); }
+        }
+    }
     c
 }
